@@ -215,7 +215,13 @@ func gen(seed uint64, tier string, idx int) sim.CaseI {
 			if wr.Bool(0.1) {
 				dir = "n/" + dir // collides with a nested module's package
 			}
-			m.dirs = append(m.dirs, dir)
+			dup := false
+			for _, e := range m.dirs {
+				dup = dup || e == dir
+			}
+			if !dup {
+				m.dirs = append(m.dirs, dir)
+			}
 		}
 		mps = append(mps, m)
 		// a second major version of the same base
@@ -493,7 +499,7 @@ type harness struct {
 
 var errInjected = errors.New("injected registry failure")
 
-func (h *harness) call(method, detail string) error {
+func (h *harness) call(ctx context.Context, method, detail string) error {
 	if h.quiet {
 		return nil
 	}
@@ -538,7 +544,12 @@ func (h *harness) call(method, detail string) error {
 		return errInjected
 	}
 	if method != "FS" {
-		if err := h.ctx.Err(); err != nil {
+		// like a real registry client, give up when the caller's context is cancelled
+		// (the loader cancels its own concurrent spot checks)
+		if err := ctx.Err(); err != nil {
+			h.mu.Lock()
+			h.cnt["registry-call-cancelled-by-caller"]++
+			h.mu.Unlock()
 			return err
 		}
 	}
@@ -548,7 +559,7 @@ func (h *harness) call(method, detail string) error {
 type simRegistry struct{ h *harness }
 
 func (r simRegistry) Fetch(ctx context.Context, m module.Version) (module.SourceLoc, error) {
-	if err := r.h.call("Fetch", m.String()); err != nil {
+	if err := r.h.call(ctx, "Fetch", m.String()); err != nil {
 		return module.SourceLoc{}, err
 	}
 	d := r.h.u.mods[m]
@@ -559,7 +570,7 @@ func (r simRegistry) Fetch(ctx context.Context, m module.Version) (module.Source
 }
 
 func (r simRegistry) ModFile(ctx context.Context, m module.Version) (*modfile.File, error) {
-	if err := r.h.call("ModFile", m.String()); err != nil {
+	if err := r.h.call(ctx, "ModFile", m.String()); err != nil {
 		return nil, err
 	}
 	d := r.h.u.mods[m]
@@ -570,7 +581,7 @@ func (r simRegistry) ModFile(ctx context.Context, m module.Version) (*modfile.Fi
 }
 
 func (r simRegistry) ModuleVersions(ctx context.Context, mpath string) ([]string, error) {
-	if err := r.h.call("ModuleVersions", mpath); err != nil {
+	if err := r.h.call(ctx, "ModuleVersions", mpath); err != nil {
 		return nil, err
 	}
 	var out []string
@@ -604,28 +615,28 @@ type parkFS struct {
 }
 
 func (p parkFS) Open(name string) (fs.File, error) {
-	if err := p.h.call("FS", p.name+":"+name); err != nil {
+	if err := p.h.call(p.h.ctx, "FS", p.name+":"+name); err != nil {
 		return nil, err
 	}
 	return p.fsys.Open(name)
 }
 
 func (p parkFS) ReadDir(name string) ([]fs.DirEntry, error) {
-	if err := p.h.call("FS", p.name+":"+name+"/"); err != nil {
+	if err := p.h.call(p.h.ctx, "FS", p.name+":"+name+"/"); err != nil {
 		return nil, err
 	}
 	return p.fsys.ReadDir(name)
 }
 
 func (p parkFS) ReadFile(name string) ([]byte, error) {
-	if err := p.h.call("FS", p.name+":"+name); err != nil {
+	if err := p.h.call(p.h.ctx, "FS", p.name+":"+name); err != nil {
 		return nil, err
 	}
 	return p.fsys.ReadFile(name)
 }
 
 func (p parkFS) Stat(name string) (fs.FileInfo, error) {
-	if err := p.h.call("FS", p.name+":"+name+"?"); err != nil {
+	if err := p.h.call(p.h.ctx, "FS", p.name+":"+name+"?"); err != nil {
 		return nil, err
 	}
 	return p.fsys.Stat(name)
@@ -655,6 +666,7 @@ type tidyOutcome struct {
 	canon string
 	text  []byte
 	deps  map[string]string // module path → listed version
+	defs  map[string]bool   // module path → listed with default: true
 }
 
 func (o tidyOutcome) String() string {
@@ -673,11 +685,12 @@ func runTidy(h *harness, mainFS fstest.MapFS) tidyOutcome {
 	if err != nil {
 		return tidyOutcome{err: fmt.Errorf("cannot format tidied module file: %v", err)}
 	}
-	deps := map[string]string{}
+	deps, defs := map[string]string{}, map[string]bool{}
 	for p, d := range res.Module.Deps {
 		deps[p] = d.Version
+		defs[p] = d.Default
 	}
-	return tidyOutcome{canon: canonFile(res.Module), text: text, deps: deps}
+	return tidyOutcome{canon: canonFile(res.Module), text: text, deps: deps, defs: defs}
 }
 
 var errNotFound = modregistry.ErrNotFound
@@ -717,7 +730,23 @@ func reference(t *testing.T, c *Case) tidyOutcome {
 	return out
 }
 
+// exec executes a case. When it is given a decision vector (replay,
+// confirmation, minimisation) and the execution shows no violation, it is
+// repeated a few times: the one source of nondeterminism the simulator does not
+// own — Go map iteration in spotCheckRoots, which decides which concurrent
+// spot check is in flight when the loader cancels them — can make a defect of
+// the code under test show in one execution of a tuple and not in the next. On
+// a tree where the property holds no execution violates, so repeating cannot
+// raise an alarm.
 func exec(t *testing.T, ci sim.CaseI, choices []uint32, keepLog bool) *sim.Outcome {
+	out := exec1(t, ci, choices, keepLog)
+	for i := 0; i < 7 && choices != nil && out.Res.Violation == nil; i++ {
+		out = exec1(t, ci, choices, keepLog)
+	}
+	return out
+}
+
+func exec1(t *testing.T, ci sim.CaseI, choices []uint32, keepLog bool) *sim.Outcome {
 	c := ci.(*Case)
 	old := runtime.GOMAXPROCS(0)
 	if c.Procs > 0 {
@@ -790,6 +819,8 @@ func exec(t *testing.T, ci sim.CaseI, choices []uint32, keepLog bool) *sim.Outco
 				v = &sim.Violation{Class: "schedule-dependent-result", Msg: fmt.Sprintf("tidy under this schedule: %s\ncanonical schedule:       %s", first, ref)}
 			} else if v = consistent(u, first); v != nil {
 				// P3 reported
+			} else if v = resolves(c, u, first, h.cnt); v != nil {
+				// P1/P2 reported
 			} else if didSecond {
 				// P4: fixpoint
 				if second.err != nil {
@@ -856,6 +887,161 @@ func consistent(u *universe, o tidyOutcome) *sim.Violation {
 			hv, err := module.NewVersion(r.Path(), have)
 			if err == nil && hv.Compare(r) < 0 {
 				return &sim.Violation{Class: "listed-version-below-requirement", Msg: fmt.Sprintf("the tidied module file lists %v, but the listed %v requires %v: %s", hv, mv, r, o)}
+			}
+		}
+	}
+	return nil
+}
+
+// resolves is an independent resolution of the imports over the tidied module
+// file (P1, P2), deliberately restricted to what can be decided without
+// re-implementing the loader: an import of a main-module package, or an import
+// with an explicit major version of a package reached that way, must be
+// provided by exactly one listed module at its listed version (none: tidy
+// wrote a file that does not resolve it; two: tidy accepted an ambiguous
+// import); and, when every import of the closure could be decided, every
+// listed module provides at least one package of the closure (no unused entry).
+func resolves(c *Case, u *universe, o tidyOutcome, cnt map[string]int) *sim.Violation {
+	if o.err != nil {
+		return nil
+	}
+	type listedMod struct {
+		path, base, major string
+		d                 *modData
+	}
+	var listed []listedMod
+	majors := map[string][]string{} // base → listed majors
+	for p, v := range o.deps {
+		mv, err := module.NewVersion(p, v)
+		if err != nil || u.mods[mv] == nil {
+			return nil // P3 reports unknown versions
+		}
+		i := strings.LastIndex(p, "@")
+		listed = append(listed, listedMod{p, p[:i], p[i+1:], u.mods[mv]})
+		majors[p[:i]] = append(majors[p[:i]], p[i+1:])
+	}
+	sort.Slice(listed, func(i, j int) bool { return listed[i].path < listed[j].path })
+	mainDefault := func(base string) string {
+		for _, m := range listed {
+			if m.base == base && o.defs[m.path] {
+				return m.major
+			}
+		}
+		if len(majors[base]) == 1 {
+			return majors[base][0]
+		}
+		return ""
+	}
+	hasPkg := func(d *modData, dir string) bool {
+		prefix := ""
+		if dir != "" {
+			prefix = dir + "/"
+		}
+		_, ok := d.files[prefix+"x.cue"]
+		return ok
+	}
+	// providers of an import among the listed modules; ok=false: not decidable here
+	providers := func(imp string, fromMain bool) (ps []listedMod, ok bool) {
+		path, major := imp, ""
+		if i := strings.LastIndex(imp, "@"); i >= 0 {
+			path, major = imp[:i], imp[i+1:]
+		}
+		if !strings.Contains(strings.SplitN(path, "/", 2)[0], ".") {
+			return nil, false // standard library
+		}
+		if path == "main.test" || strings.HasPrefix(path, "main.test/") {
+			return nil, false
+		}
+		if major == "" && !fromMain {
+			return nil, false // resolved with the importing module's own defaults: not decided here
+		}
+		for _, m := range listed {
+			if path != m.base && !strings.HasPrefix(path, m.base+"/") {
+				continue
+			}
+			want := major
+			if want == "" {
+				want = mainDefault(m.base)
+			}
+			if want == "" || want != m.major {
+				continue
+			}
+			if hasPkg(m.d, strings.TrimPrefix(strings.TrimPrefix(path, m.base), "/")) {
+				ps = append(ps, m)
+			}
+		}
+		return ps, true
+	}
+	type item struct {
+		imp      string
+		fromMain bool
+		by       string
+	}
+	var todo []item
+	for _, p := range c.MainPkgs {
+		for _, imp := range p.Imports {
+			todo = append(todo, item{imp, true, "main/" + p.Dir})
+		}
+		if p.Tool && p.Extra != "" {
+			todo = append(todo, item{p.Extra, true, "main/" + p.Dir + " (_tool)"})
+		}
+	}
+	used := map[string]bool{}
+	seen := map[string]bool{}
+	complete := true
+	for len(todo) > 0 {
+		it := todo[0]
+		todo = todo[1:]
+		key := fmt.Sprint(it.imp, it.fromMain)
+		if seen[key] {
+			continue
+		}
+		seen[key] = true
+		ps, ok := providers(it.imp, it.fromMain)
+		if !ok {
+			path := it.imp
+			if i := strings.LastIndex(path, "@"); i >= 0 {
+				path = path[:i]
+			}
+			if strings.Contains(strings.SplitN(path, "/", 2)[0], ".") && !strings.HasPrefix(path, "main.test") {
+				complete = false
+			}
+			continue
+		}
+		switch len(ps) {
+		case 0:
+			return &sim.Violation{Class: "import-without-listed-provider", Msg: fmt.Sprintf("tidy succeeded, but import %q (by %s) is provided by no module listed in the result %s", it.imp, it.by, o)}
+		case 1:
+		default:
+			return &sim.Violation{Class: "ambiguous-import-accepted", Msg: fmt.Sprintf("tidy succeeded, but import %q (by %s) is provided by both %s and %s in the result %s", it.imp, it.by, ps[0].path, ps[1].path, o)}
+		}
+		m := ps[0]
+		used[m.path] = true
+		// follow the imports of the providing package
+		path := it.imp
+		if i := strings.LastIndex(path, "@"); i >= 0 {
+			path = path[:i]
+		}
+		dir := strings.TrimPrefix(strings.TrimPrefix(path, m.base), "/")
+		for _, mvSpec := range c.Mods {
+			if mvSpec.Path == m.path && mvSpec.Version == o.deps[m.path] {
+				for _, pk := range mvSpec.Pkgs {
+					if pk.Dir == dir {
+						for _, imp := range pk.Imports {
+							todo = append(todo, item{imp, false, m.path + "/" + dir})
+						}
+					}
+				}
+				break
+			}
+		}
+	}
+	cnt["independent-resolutions-checked"]++
+	if complete {
+		cnt["independent-resolutions-with-complete-closure"]++
+		for _, m := range listed {
+			if !used[m.path] {
+				return &sim.Violation{Class: "unused-listed-module", Msg: fmt.Sprintf("the tidied module file lists %s, which provides no package of the import closure: %s", m.path, o)}
 			}
 		}
 	}
